@@ -58,15 +58,11 @@ F = [
       kinds=['exception_saved', 'saved_more_than_once', 'write_once_store_failed_run', 'recurrent_marker_saved', 'saved_value_not_final'],
       mechanism='the contained exception of a losing one-of candidate is saved as that node\'s artifact (manager.py 333-340 + 645-649)',
       witness={'C19': 'witnesses/KF-STORE-CAND.json'}),
- dict(id='KF-STORE-SLOW', family='suspending_store', properties=['C19'], kinds=['executed_node_not_saved'],
-      mechanism='_run_node publishes a node result before awaiting the artifact save (manager.py: set_node_result, then await '
-                'ctx.save_node_result); with a store whose save() really awaits, consumers proceed, the run ends and its final task sweep '
-                'cancels the save that is still in flight: the node was executed but its artifact is never saved',
-      witness={'C19': 'witnesses/KF-STORE-SLOW.json'}),
 ]
 for f in F:
     f['status'] = 'open'
 FIXED = [
+ 'fixed: property=C19 69f1c32 a node result was published before its artifact save finished: with a slow store the save was cancelled at run end and the artifact lost (witnesses/D32.json)',
  'fixed: property=C17 b11c0fc a build_node() derivative tagged for the process pool killed the pool worker (method pickled under the wrong name) (witnesses/D31.json)',
  'fixed: property=C02 7b7a1b7 hang when a node needed outside a one-of had failed inside a one-of branch and the outside sub-pipeline had no task of its own for it (witnesses/D30.json); also C05 C09',
  'fixed: property=C10 17020fc the early exit of a failed one-of candidate cancelled node executions other sub-pipelines were waiting for: None delivered as a value (witnesses/D28.json); also C03 C05',
